@@ -47,7 +47,8 @@ def words(t, rng, tier):
         "int": ["0", "007", "12", "١٢", "1a", "", "-1", "1\n", "9" * 30],
         "decimal": ["1", "1.5", "1x2", "1.", ".5", "100", "1.50", "0.0", "1.2.3", "١.٢", "10.010"],
         "uuid": [str(uuid.UUID(int=i * 7919 + 1)) for i in range(3)] + ["90478484-0988-45FC-91fe-757d90136892", "x", "90478484098845fc91fe757d90136892"],
-        "date": ["2021-03-07", "2021-13-45", "2020-02-29", "2021-02-29", "0000-01-01", "2021-3-7", "9999-12-31"],
+        "date": ["2021-03-07", "2021-13-45", "2020-02-29", "2021-02-29", "0000-01-01", "2021-3-7", "9999-12-31",
+                 "0001-01-01", "0033-04-03", "0999-12-31", "1000-01-01", "0100-02-28", "1900-02-29", "2000-02-29"],
         "any": ["", "a", "a/b/c", "a\nb", "\n", "é/ü"],
     }[t]
     if tier == "thorough":
@@ -209,7 +210,8 @@ def bounded(tier, seed):
                      ("int", str(rng.randrange(10 ** rng.randrange(1, 30)))),
                      ("decimal", "%d.%s" % (rng.randrange(1000), "".join(rng.choice("0123456789") for _ in range(rng.randrange(1, 5))))),
                      ("decimal", str(rng.randrange(100000) * 10 ** rng.randrange(0, 4))),
-                     ("date", (datetime.date(1999, 1, 1) + datetime.timedelta(days=rng.randrange(20000))).isoformat())):
+                     ("date", (datetime.date(1999, 1, 1) + datetime.timedelta(days=rng.randrange(20000))).isoformat()),
+                     ("date", datetime.date.fromordinal(rng.randrange(1, 3652059)).isoformat())):     # any year 0001..9999
             evals += 1
             v = check_word(t, w)
             distinct.add((t, w))
